@@ -70,6 +70,10 @@ out += ["", "%d runs of seeded changes against checks (a change seeded for C01 i
         "* `C06-cancel-drops-sibling-waiters` made the dutydb driver crawl for 25 minutes (every blocked waiter waited out its time-out): all drivers now stop generating after 200 violations that are not known findings.",
         "* `C11-bcast-dedup-mark-after-handover` (check-then-mark of the broadcast de-duplication no longer atomic) and `C11-r1p2p-envelope-checked-once` (only the first share of a round-1 message is checked for its addressing): new op `race` (two overlapping deliveries of one cast, the first held in the hand-over) with theorem `overlapping_no_duplicate_sender`; forged messages with exactly one mis-addressed entry at a later position with theorem `every_entry_validated`. The first change also showed that the search phase of the check was unbounded (25 minutes): it is now limited to the broken streams and to 6 minutes in the quick tier.",
         "* `C20-reorg-epoch-floor-arithmetic` (the SSE listener computes the reorg epoch as `slot/spe - depth/spe`): the epoch handed to `InvalidateCache` was an input of the driver; the real `handleChainReorgEvent` is now driven (hook, op `sse`) with model `Model/SseReorg.lean`, theorems `Props/C20Sse.lean` and monitor `dutiescache:sse_reorg_epoch_wrong`.",
+        "* `C19-proxy-shared-body-reader`, `C19-node-client-created-with-detached-ctx`: `multi.Proxy` and the lazy http client path were not driven; ops `proxy` (real `multi` over scripted nodes that read the body they are handed; model `Model/ProxyCall.lean`, 8 theorems in `Props/C19Proxy.lean`) and `http` (real `NewMultiHTTP` against loopback servers: healthy, accepts-and-never-answers, closed port, slow) were added to the provide stream.",
+        "* `C12-nodesig-recid-unchecked` (only the first 64 bytes of a node signature are verified): hex fields were altered in the middle only; alterations of the first and the last hex digit were added.",
+        "* `C07-parsigex-seen-cache-ignores-subcommittee` (a de-duplication cache in the peer handler swallows the second subcommittee's partials): C07's check now runs the admission stream; monitor `admit:valid_not_delivered`.",
+        "* `C13-caster-session-definition-hash` (the cluster-changing ceremonies hand the definition hash instead of the lock hash to `bcast.New`): glue outside `dkg/bcast`; translator T-session regenerates the table of `bcast.New` call sites and `Props/C13Session.sessions_per_ceremony` decides it (reported without input: it is a configuration slip).",
         ""]
 out += [
  "### 9.2 Single-token mutation campaign (`bin/mutate.py`, `bin/remutate.py`)",
